@@ -49,7 +49,9 @@ def mergeStep (range : Option Range) (s : MergeSt) : MergeSt :=
     -- no visible points: the old part is kept, its data skipped
     let vals := if s.vals.length > old.raw then s.vals.drop old.raw else []
     let s1 := nextOld { s with vals := vals }
-    { s1 with out := pushPart s.out old }
+    -- a part without drawn points carries no cut or trim (fix in /repo)
+    let pt : Part := if old.usr = 0 then { old with cut := 0, trim := 0 } else old
+    { s1 with out := pushPart s.out pt }
   else
     let usr := if s.vals.length < old.usr then s.vals.length else old.usr
     let pt0 := linepartLinear (s.vals.take usr) range
